@@ -90,7 +90,11 @@ where
             Some(msg) => {
                 #[cfg(pearl_verif)]
                 let _verif_guard = crate::verif::MsgGuard;
-                self.process_msg(msg).await?;
+                // A request that can't be applied in the current state (or a transient IO error)
+                // must not stop background maintenance: report it and continue
+                if let Err(err) = self.process_msg(msg).await {
+                    error!("ObserverWorker failed to process message: {:?}", err);
+                }
                 Ok(TickResult::Continue)
             },
             None => Ok(TickResult::Stop)
@@ -104,7 +108,11 @@ where
             Ok(Some(msg)) => {
                 #[cfg(pearl_verif)]
                 let _verif_guard = crate::verif::MsgGuard;
-                self.process_msg(msg).await?;
+                // A request that can't be applied in the current state (or a transient IO error)
+                // must not stop background maintenance: report it and continue
+                if let Err(err) = self.process_msg(msg).await {
+                    error!("ObserverWorker failed to process message: {:?}", err);
+                }
                 Ok(TickResult::Continue)
             },
             Ok(None) => {
